@@ -442,6 +442,15 @@ pub fn bases(seed: u64) -> &'static [Box<dyn Base>] {
             out.push(b);
         }
     }
+    // ... and two proofs whose LAST FRI layer is committed with a two-leaf tree (depth 1, the
+    // smallest there is): LDE domain 32 folded by 4 twice, and 16 folded by 2 three times
+    for (ci, force) in [(0usize, (4u32, 2usize, 4usize, 0usize, 3usize)), (1, (3, 2, 2, 0, 2))] {
+        k += 1;
+        let mut ch = Chooser::record(simcore::rng::stream(seed, "hostile-bases", k));
+        if let Some(b) = dispatch(CONFIGS[ci], BuildJob { ch: &mut ch, cfg: CONFIGS[ci], ext: exts[0], flavour: 0, force: Some(force), constant: false }) {
+            out.push(b);
+        }
+    }
     let leaked: &'static [Box<dyn Base>] = Box::leak(out.into_boxed_slice());
     cache.insert(seed, leaked);
     leaked
